@@ -201,8 +201,11 @@ def stepHyps (s : DState) (toks : List String) : DState × String :=
   | "req" :: attrs =>
     let r := parseReq attrs
     let sel := selectPolicies s.wl s.policies
+    let mig := sel.all fun p => p.rules.all fun ru => migrationOKB s.opts p.ns ru
+    let scope := sel.all fun p => p.rules.all fun ru => ruleInScope s.opts r p.ns ru
     (s, s!"hyps={boolTok (hypsB s.opts sel r)} tr={boolTok (translatableB s.opts sel)} " ++
-        s!"compiled={decTok (evalFilters s.filters r)} spec={decTok (specDecision s.wl s.bundle s.policies r)}")
+        s!"compiled={decTok (evalFilters s.filters r)} spec={decTok (specDecision s.wl s.bundle s.policies r)} " ++
+        s!"mig={boolTok mig} scope={boolTok scope} peer={boolTok r.peerOK} names={boolTok (entriesDistinctB s.opts sel)}")
   | "build" :: _ => let (s', _) := step s toks; (s', "built")
   | _ => step s toks
 
